@@ -1,0 +1,21 @@
+//go:build verif
+
+// Contracts for package dkv, checked by /verif (govc). Comment-only.
+package dkv
+
+//@ type DB
+//@   guards mu: sstables
+
+// Put/Delete: one new sequence number per operation, the same number goes to
+// the write-ahead log and to the memtable, WAL first.
+//@ func DB.Put
+//@   property C07 C08
+//@   nowrap
+//@   requires db.wal != nil && db.mtables != nil && db.wal.activeBuffer != nil && db.wal.latestSeqNum <= db.seqNum && !db.wal.sealedFlag
+//@   ensures db.seqNum == old(db.seqNum) + 1
+
+//@ func DB.Delete
+//@   property C07 C08
+//@   nowrap
+//@   requires db.wal != nil && db.mtables != nil && db.wal.activeBuffer != nil && db.wal.latestSeqNum <= db.seqNum && !db.wal.sealedFlag
+//@   ensures db.seqNum == old(db.seqNum) + 1
